@@ -1153,6 +1153,85 @@ pub fn text_family(kind: usize, len: usize) -> Vec<u8> {
                 section = (section + 1) % 8;
             }
         }
+        14 => {
+            // more than a window of text, an incompressible blob, the same blob again (a stored block deep in
+            // the stream that is then referenced from the following window), text
+            let blob = text_family(4, (len / 6).max(16));
+            let t1 = (len - 2 * blob.len()) * 3 / 4;
+            v.extend_from_slice(&text_family(1, t1));
+            v.extend_from_slice(&blob);
+            v.extend_from_slice(&blob);
+            let rest = len.saturating_sub(v.len());
+            v.extend_from_slice(&text_family(5, rest));
+        }
+        15 => {
+            // bitmap-like: 300-byte rows of a few palette indices in long runs whose edges move a little from
+            // row to row (runs of every length, each a little longer or shorter than the one above it)
+            let w = 300usize;
+            let mut edges: Vec<usize> = vec![40, 90, 91, 150, 220, 260];
+            while v.len() < len {
+                let mut col = 0u8;
+                let mut e = 0;
+                for x in 0..w {
+                    while e < edges.len() && edges[e] <= x {
+                        e += 1;
+                        col = (col + 1) % 5;
+                    }
+                    v.push(col * 17);
+                }
+                for ed in edges.iter_mut() {
+                    let r = next() % 7;
+                    if r == 0 && *ed > 2 {
+                        *ed -= 2;
+                    } else if r == 1 && *ed + 3 < w {
+                        *ed += 3;
+                    } else if r == 2 && *ed > 1 {
+                        *ed -= 1;
+                    }
+                }
+                edges.sort();
+            }
+        }
+        16 => {
+            // short runs (1..=40) of six byte values, a little noise, now and then a repeated passage
+            while v.len() < len {
+                let b = (next() % 6) as u8;
+                let l = 1 + (next() % 40) as usize;
+                for _ in 0..l {
+                    v.push(b);
+                }
+                if next() % 4 == 0 {
+                    for _ in 0..next() % 6 {
+                        v.push((next() % 256) as u8);
+                    }
+                }
+                if v.len() > 2000 && next() % 50 == 0 {
+                    let l = (20 + (next() % 700) as usize).min(v.len() - 1);
+                    let start = (next() as usize * 37) % (v.len() - l);
+                    let piece: Vec<u8> = v[start..start + l].to_vec();
+                    v.extend_from_slice(&piece);
+                }
+            }
+        }
+        17 => {
+            // 8 bit image, 300 pixels wide, made of overlapping single-colour rectangles
+            let w = 300usize;
+            let h = (len + w - 1) / w;
+            let mut img = vec![0u8; w * h];
+            for _ in 0..(w * h / 400) {
+                let x0 = (next() as usize * 3) % w;
+                let y0 = (next() as usize * 5) % h;
+                let rw = 1 + (next() % 60) as usize;
+                let rh = 1 + (next() % 30) as usize;
+                let c = (next() % 12) as u8;
+                for y in y0..(y0 + rh).min(h) {
+                    for x in x0..(x0 + rw).min(w) {
+                        img[y * w + x] = c;
+                    }
+                }
+            }
+            v = img;
+        }
         10 => {
             // periodic data with periods 1..=8 (single distance code per block for some compressors)
             let mut period = 1;
@@ -1675,6 +1754,23 @@ pub fn e2_crossblock(ctx: &Ctx, name: &str, st: &mut Local, f: Sink) {
         t.extend(std::iter::repeat(r(4, 1)).take(7));
         cases.push(("dynamic block with 65536 x (3,1), 300 x (4,2), 100 x (5,3)".into(), vec![Block::Dyn { hdr: default_header(&t), toks: t }]));
     }
+    // more than 65535 blocks in one stream (16-bit block counters, per-stream block limits)
+    {
+        for total in [65_535usize, 65_536, 65_537] {
+            let blocks: Vec<Block> = (0..total).map(|k| Block::Stored { data: vec![b'a' + (k % 23) as u8], pad: 0 }).collect();
+            cases.push((format!("{} one-byte stored blocks", total), blocks));
+        }
+        let mut blocks: Vec<Block> = (0..66_000).map(|_| Block::Fixed { toks: vec![] }).collect();
+        blocks.push(Block::Fixed { toks: vec![Tok::Lit(b'z')] });
+        cases.push(("66000 empty fixed blocks and a final one-literal block".into(), blocks));
+        let mut blocks: Vec<Block> = Vec::new();
+        for k in 0..33_000usize {
+            blocks.push(Block::Fixed { toks: vec![Tok::Lit(b'a' + (k % 7) as u8)] });
+            blocks.push(Block::Stored { data: vec![], pad: 0 });
+        }
+        blocks.push(Block::Fixed { toks: vec![] });
+        cases.push(("33000 x (one-literal fixed block + empty stored block), the pattern of a sync flush per byte".into(), blocks));
+    }
     let mut idx = 0u64;
     for (d, blocks) in cases {
         let i = idx;
@@ -1694,7 +1790,7 @@ pub fn e2_crossblock(ctx: &Ctx, name: &str, st: &mut Local, f: Sink) {
         deliver(ctx, name, st, i, case, f);
     }
     let e = st.eng(name);
-    e.bound = "7 single-block streams with more than 65535 occurrences of one symbol (counts wrapping to 0, 3 and 5 next to mid-sized counts); 8 multi-block streams: a stored block (text / noise) followed by a fixed or dynamic block whose references reach into the stored bytes, with and without a leading huffman block".into();
+    e.bound = "7 single-block streams with more than 65535 occurrences of one symbol (counts wrapping to 0, 3 and 5 next to mid-sized counts); 5 streams with 65535 .. 66001 blocks; 8 multi-block streams: a stored block (text / noise) followed by a fixed or dynamic block whose references reach into the stored bytes, with and without a leading huffman block".into();
     e.exhaustive = true;
 }
 
